@@ -37,7 +37,7 @@ def plan(tier, seed):
     out = []
     for i in range(z['generic']):
         out.append({'fam': 'generic', 's': seed, 'p': NUM, 'i': i, 'allow_empty': True,
-                    'k': {'big': i % 5 == 0, 'anom': i % 2 == 0, 'index': ['concat', 'range_offset', 'range_desc', 'checked_concat'][(i // 10) % 4] if i % 10 == 3 else None,
+                    'k': {'big': i % 5 == 0, 'anom': i % 2 == 0, 'index': ['concat', 'sorted_repeats', 'range_offset', 'range_desc', 'checked_concat'][(i // 5) % 5] if i % 5 == 3 else None,
                           'extreme': i % 3 == 1, 'extra': 'objects' if i % 7 == 2 else None, 'maxrows': 3000 if (tier == 'thorough' and i % 50 == 0) else 1200}})
     for i in range(z['eng']):
         fam = ['bimodal', 'chain', 'tiecut', 'bimodal'][i % 4]
